@@ -15,8 +15,14 @@ Lemma prefix_app_r {A} (a b : list A) : prefix a (a ++ b).
 Proof. exists b; reflexivity. Qed.
 Lemma prefix_app {A} (a b c : list A) : prefix b c -> prefix (a ++ b) (a ++ c).
 Proof. intros [r ->]. exists r. apply app_assoc. Qed.
+Lemma NoDup_app_l {A} (a r : list A) : NoDup (a ++ r) -> NoDup a.
+Proof.
+  induction a as [|x a IH]; cbn [app]; intros H; [constructor|].
+  inversion H as [|? ? Hn Hr]; subst. constructor; [|auto].
+  intros X. apply Hn. apply in_or_app. left; exact X.
+Qed.
 Lemma prefix_nodup {A} (a b : list A) : prefix a b -> NoDup b -> NoDup a.
-Proof. intros [r ->] H. eapply NoDup_app_remove_r; eauto. Qed.
+Proof. intros [r ->] H. eapply NoDup_app_l; eauto. Qed.
 Lemma prefix_firstn {A} (a b : list A) : prefix a b -> a = firstn (length a) b.
 Proof.
   intros [r ->]. rewrite firstn_app, Nat.sub_diag, firstn_all. cbn [firstn]. symmetry; apply app_nil_r.
@@ -140,15 +146,334 @@ Proof.
     destruct m; cbn [recvs_of]; rewrite ?E'; destruct (b_kind x); apply IH.
   - cbn [recvs_of]. destruct (b_kind x); [apply IH|]. destruct (b_addr x =? a'); [f_equal|]; apply IH.
 Qed.
+Lemma keep_first_zero a l : recvs_of a (keep_first O a l) = [].
+Proof.
+  induction l as [|x r IH]; cbn [keep_first recvs_of]; [reflexivity|].
+  destruct (b_addr x =? a) eqn:E; [exact IH|]. cbn [recvs_of]. rewrite E. destruct (b_kind x); exact IH.
+Qed.
 Lemma keep_first_recvs_same m a l : prefix (recvs_of a (keep_first m a l)) (recvs_of a l).
 Proof.
   revert m. induction l as [|x r IH]; intros m; cbn [keep_first recvs_of]; [apply prefix_refl|].
   destruct (b_addr x =? a) eqn:E.
   - destruct m.
-    + eapply prefix_trans; [apply (IH O)|]. destruct (b_kind x); [apply prefix_refl|].
-      exists []. symmetry; apply app_nil_r || idtac. 
-      destruct (IH O) as [q Hq]. clear. exists []; rewrite app_nil_r; reflexivity.
+    + rewrite keep_first_zero. eexists; reflexivity.
     + cbn [recvs_of]. rewrite E. destruct (b_kind x); [apply IH|].
       destruct (IH m) as [q Hq]. exists q. cbn [app]. f_equal. exact Hq.
   - cbn [recvs_of]. rewrite E. destruct (b_kind x); apply IH.
 Qed.
+
+(* ================================================================ the invariant *)
+(* the send a receive block refers to is confirmed in the given chain prefix and addressed to the receiver *)
+Definition recv_ok (view : list (list blk)) (b : blk) : Prop :=
+  match b_kind b with
+  | BSend _ => True
+  | BRecv h => exists from, find_csend h (conf_sends view) = Some (from, b_addr b)
+  end.
+
+Record WFN (n : node) : Prop := mkWFN {
+  wn_chain : forall i m b, nth_error (chain n) i = Some m -> In b m -> recv_ok (firstn i (chain n)) b;
+  wn_pool : forall b, In b (pool n) -> recv_ok (chain n) b;
+  wn_nodup : forall a, NoDup (recvs_of a (blocks_of n));
+  wn_fifo : forall c, is_emb c = true -> prefix (recvs_of c (blocks_of n)) (inbox_at c (chain n));
+  wn_sends : NoDup (map (fun s : hash * addr * addr => fst (fst s)) (conf_sends (chain n)))
+}.
+
+Lemma recv_ok_app v w b : recv_ok v b -> recv_ok (v ++ w) b.
+Proof.
+  unfold recv_ok. destruct (b_kind b); [auto|]. intros [f H]. exists f.
+  rewrite conf_sends_app. apply find_csend_app. exact H.
+Qed.
+Lemma recv_ok_firstn i c b : recv_ok (firstn i c) b -> recv_ok c b.
+Proof. intros H. rewrite <- (firstn_skipn i c). apply recv_ok_app. exact H. Qed.
+
+Lemma inbox_nodup c n : WFN n -> NoDup (inbox_at c (chain n)).
+Proof. intros W. apply to_hashes_nodup. apply (wn_sends _ W). Qed.
+
+Lemma WFN_genesis : WFN genesis_node.
+Proof.
+  constructor; unfold genesis_node, blocks_of; cbn [chain pool concat app].
+  - intros [|[|i]] m b H; cbn in H; try discriminate. inversion H; subst. intros [].
+  - intros b [].
+  - intros a. constructor.
+  - intros c _. exists (inbox_at c [[]]). reflexivity.
+  - cbn. constructor.
+Qed.
+
+(* dropping the unconfirmed tail of one account *)
+Lemma WFN_keep_first n m a : WFN n -> WFN (mkNode (chain n) (keep_first m a (pool n))).
+Proof.
+  intros W. pose proof W as W0. destruct W. constructor; unfold blocks_of in *; cbn [chain pool] in *.
+  - exact wn_chain0.
+  - intros b H. apply wn_pool0. eapply keep_first_in; exact H.
+  - intros x. specialize (wn_nodup0 x). rewrite recvs_of_app in *.
+    destruct (Z.eq_dec x a) as [->|N].
+    + eapply prefix_nodup; [|exact wn_nodup0]. apply prefix_app. apply keep_first_recvs_same.
+    + rewrite keep_first_recvs_other by exact N. exact wn_nodup0.
+  - intros c Hc. specialize (wn_fifo0 c Hc). rewrite recvs_of_app in *.
+    destruct (Z.eq_dec c a) as [->|N].
+    + eapply prefix_trans; [|exact wn_fifo0]. apply prefix_app. apply keep_first_recvs_same.
+    + rewrite keep_first_recvs_other by exact N. exact wn_fifo0.
+  - exact wn_sends0.
+Qed.
+
+Lemma recvs_of_snoc a l b :
+  recvs_of a (l ++ [b]) = recvs_of a l ++
+    match b_kind b with BRecv h => if b_addr b =? a then [h] else [] | BSend _ => [] end.
+Proof. rewrite recvs_of_app. cbn [recvs_of]. destruct (b_kind b); [reflexivity|]. destruct (b_addr b =? a); reflexivity. Qed.
+
+(* a verified block on top of the pool *)
+Lemma WFN_add n b : WFN n -> check_blk true n b = 0 -> WFN (mkNode (chain n) (pool n ++ [b])).
+Proof.
+  intros W C. pose proof W as W0. destruct W.
+  unfold check_blk in C.
+  destruct ((b_ma b <? 1) || (Z.of_nat (length (chain n)) <? b_ma b)) eqn:EM; [unfold E_MA_MISSING in C; discriminate|].
+  set (view := firstn (Z.to_nat (b_ma b)) (chain n)) in *.
+  assert (BL : blocks_of (mkNode (chain n) (pool n ++ [b])) = blocks_of n ++ [b])
+    by (unfold blocks_of; cbn [chain pool]; apply app_assoc).
+  destruct (b_kind b) as [to|h] eqn:K.
+  - (* a send block: no receive sequence changes *)
+    constructor; cbn [chain pool]; try rewrite BL; auto.
+    + intros x Hx. apply in_app_iff in Hx. destruct Hx as [Hx|[<-|[]]]; [auto|]. unfold recv_ok. rewrite K. exact I.
+    + intros a. rewrite recvs_of_snoc, K, app_nil_r. apply wn_nodup0.
+    + intros c Hc. rewrite recvs_of_snoc, K, app_nil_r. apply wn_fifo0; exact Hc.
+  - set (a := b_addr b) in *. set (mine := recvs_of a (blocks_of n)) in *.
+    unfold recv_check in C.
+    destruct (find_csend h (conf_sends view)) as [[from to]|] eqn:F; [|unfold E_FROM_MISSING in C; discriminate].
+    cbn [andb] in C. destruct (to =? a) eqn:T; cbn [negb] in C; [|unfold E_MISMATCH in C; discriminate].
+    apply Z.eqb_eq in T; subst to.
+    assert (Fc : find_csend h (conf_sends (chain n)) = Some (from, a)).
+    { rewrite <- (firstn_skipn (Z.to_nat (b_ma b)) (chain n)). rewrite conf_sends_app. apply find_csend_app. exact F. }
+    assert (NEW : ~ In h mine).
+    { destruct (is_emb a) eqn:Ea.
+      - destruct (nth_error (inbox_at a view) (length mine)) as [h'|] eqn:Q; [|unfold E_SEQ_NOTHING in C; discriminate].
+        destruct (h' =? h) eqn:E; [|unfold E_SEQ_NOT_NEXT in C; discriminate]. apply Z.eqb_eq in E; subst h'.
+        assert (Q' : nth_error (inbox_at a (chain n)) (length mine) = Some h).
+        { eapply prefix_nth; [|exact Q]. rewrite <- (firstn_skipn (Z.to_nat (b_ma b)) (chain n)).
+          rewrite inbox_at_app. apply prefix_app_r. }
+        assert (EQ : mine = firstn (length mine) (inbox_at a (chain n))) by (apply prefix_firstn; apply wn_fifo0; exact Ea).
+        rewrite EQ. apply NoDup_nth_not_firstn; [apply inbox_nodup; exact W0 | exact Q'].
+      - destruct (mem_hash h mine) eqn:M; [unfold E_ALREADY in C; discriminate|].
+        intros X. apply mem_hash_in in X. congruence. }
+    constructor; cbn [chain pool]; try rewrite BL; auto.
+    + intros x Hx. apply in_app_iff in Hx. destruct Hx as [Hx|[<-|[]]]; [auto|].
+      unfold recv_ok. rewrite K. exists from. exact Fc.
+    + intros x. rewrite recvs_of_snoc, K. fold a. destruct (a =? x) eqn:E.
+      * apply Z.eqb_eq in E; subst x. apply NoDup_app_snoc; [apply wn_nodup0 | exact NEW].
+      * rewrite app_nil_r. apply wn_nodup0.
+    + intros c Hc. rewrite recvs_of_snoc, K. fold a. destruct (a =? c) eqn:E.
+      * apply Z.eqb_eq in E; subst c. rewrite Hc in C.
+        destruct (nth_error (inbox_at a view) (length mine)) as [h'|] eqn:Q; [|unfold E_SEQ_NOTHING in C; discriminate].
+        destruct (h' =? h) eqn:E; [|unfold E_SEQ_NOT_NEXT in C; discriminate]. apply Z.eqb_eq in E; subst h'.
+        assert (Q' : nth_error (inbox_at a (chain n)) (length mine) = Some h).
+        { eapply prefix_nth; [|exact Q]. rewrite <- (firstn_skipn (Z.to_nat (b_ma b)) (chain n)).
+          rewrite inbox_at_app. apply prefix_app_r. }
+        fold mine.
+        assert (EQ : mine = firstn (length mine) (inbox_at a (chain n))) by (apply prefix_firstn; apply wn_fifo0; exact Hc).
+        rewrite EQ at 1. rewrite <- (firstn_snoc_nth _ _ _ Q').
+        rewrite <- (firstn_skipn (S (length mine)) (inbox_at a (chain n))) at 2. apply prefix_app_r.
+      * rewrite app_nil_r. apply wn_fifo0; exact Hc.
+Qed.
+
+(* ================================================================ momentum *)
+Lemma find_blk_in h l b : find_blk h l = Some b -> In b l.
+Proof.
+  induction l as [|x r IH]; cbn [find_blk]; [discriminate|].
+  destruct (b_hash x =? h); [intros X; inversion X; left; reflexivity | right; auto].
+Qed.
+Lemma pick_in sel l : forall mom, pick sel l = Some mom -> forall b, In b mom -> In b l.
+Proof.
+  induction sel as [|h r IH]; cbn [pick]; intros mom H b Hb.
+  - inversion H; subst. destruct Hb.
+  - destruct (find_blk h l) as [x|] eqn:F; [|discriminate]. destruct (pick r l) as [bs|]; [|discriminate].
+    inversion H; subst. destruct Hb as [<-|Hb]; [eapply find_blk_in; eauto | eapply IH; eauto].
+Qed.
+
+Lemma momentum_recvs n mom rest a :
+  (forall b, In b mom -> In b (pool n)) -> (forall b, In b rest -> In b (pool n)) ->
+  momentum_ok n mom rest = true ->
+  recvs_of a mom ++ recvs_of a rest = recvs_of a (pool n).
+Proof.
+  intros Hm Hr OK. unfold momentum_ok in OK. apply andb_true_iff in OK. destruct OK as [OK _].
+  rewrite forallb_forall in OK.
+  destruct (existsb (fun b => b_addr b =? a) (pool n)) eqn:EX.
+  - apply existsb_exists in EX. destruct EX as [b [Hb E]]. apply Z.eqb_eq in E.
+    specialize (OK b Hb). rewrite E in OK. apply andb_true_iff in OK. destruct OK as [_ OK].
+    apply hashes_eqb_eq. exact OK.
+  - assert (A : forall b, In b (pool n) -> b_addr b <> a).
+    { intros b Hb E. assert (existsb (fun b => b_addr b =? a) (pool n) = true); [|congruence].
+      apply existsb_exists. exists b. split; [exact Hb | apply Z.eqb_eq; exact E]. }
+    rewrite !recvs_of_absent; auto.
+Qed.
+
+Lemma nth_error_snoc {A} (l : list A) x i y :
+  nth_error (l ++ [x]) i = Some y -> (nth_error l i = Some y /\ (i < length l)%nat) \/ (i = length l /\ y = x).
+Proof.
+  intros H. destruct (Nat.lt_ge_cases i (length l)) as [L|G].
+  - left. rewrite nth_error_app1 in H by exact L. auto.
+  - right. rewrite nth_error_app2 in H by exact G. destruct (i - length l)%nat as [|k] eqn:E.
+    + cbn in H. inversion H. split; [lia | reflexivity].
+    + cbn in H. destruct k; discriminate.
+Qed.
+
+Lemma WFN_momentum n sel mom :
+  WFN n -> pick sel (pool n) = Some mom ->
+  let rest := filter (fun b => negb (mem_hash (b_hash b) sel)) (pool n) in
+  momentum_ok n mom rest = true -> WFN (mkNode (chain n ++ [mom]) rest).
+Proof.
+  intros W P rest OK. pose proof W as W0. destruct W.
+  assert (Hm : forall b, In b mom -> In b (pool n)) by (eapply pick_in; eauto).
+  assert (Hr : forall b, In b rest -> In b (pool n)) by (intros b Hb; apply filter_In in Hb; tauto).
+  assert (RE : forall a, recvs_of a (blocks_of (mkNode (chain n ++ [mom]) rest)) = recvs_of a (blocks_of n)).
+  { intros a. unfold blocks_of; cbn [chain pool]. rewrite concat_app. cbn [concat]. rewrite app_nil_r.
+    rewrite !recvs_of_app, <- app_assoc. f_equal. eapply momentum_recvs; eauto. }
+  constructor; cbn [chain pool].
+  - intros i m b Hn Hb. destruct (nth_error_snoc _ _ _ _ Hn) as [[Hn' L]|[-> ->]].
+    + rewrite firstn_app_le by lia. eapply wn_chain0; eauto.
+    + rewrite firstn_app, Nat.sub_diag, firstn_all. cbn [firstn]. rewrite app_nil_r. apply wn_pool0. auto.
+  - intros b Hb. apply recv_ok_app. apply wn_pool0. auto.
+  - intros a. rewrite RE. apply wn_nodup0.
+  - intros c Hc. rewrite RE. eapply prefix_trans; [apply wn_fifo0; exact Hc|]. rewrite inbox_at_app. apply prefix_app_r.
+  - unfold momentum_ok in OK. apply andb_true_iff in OK. destruct OK as [_ OK]. apply nodup_b_sound. exact OK.
+Qed.
+
+(* ================================================================ reorganisation, restart *)
+Lemma removelast_snoc {A} (l : list A) x : removelast (l ++ [x]) = l.
+Proof. apply removelast_last. Qed.
+
+Lemma recvs_in_chain c (ch : list (list blk)) h :
+  In h (recvs_of c (concat ch)) ->
+  exists i m b, nth_error ch i = Some m /\ In b m /\ b_kind b = BRecv h /\ b_addr b = c.
+Proof.
+  intros H. apply recvs_of_in in H. destruct H as [b [Hb [K A]]].
+  apply in_concat in Hb. destruct Hb as [m [Hm Hbm]]. apply In_nth_error in Hm. destruct Hm as [i Hi].
+  exists i, m, b. auto.
+Qed.
+
+Lemma WFN_truncate n c' last :
+  WFN n -> chain n = c' ++ [last] -> WFN (mkNode c' []).
+Proof.
+  intros W E. pose proof W as W0. destruct W. rewrite E in *.
+  assert (PL : forall a, prefix (recvs_of a (concat c')) (recvs_of a (blocks_of n))).
+  { intros a. unfold blocks_of. rewrite E, concat_app, !recvs_of_app, <- app_assoc. apply prefix_app_r. }
+  assert (CH : forall i m b, nth_error c' i = Some m -> In b m -> recv_ok (firstn i c') b).
+  { intros i m b Hn Hb. assert (L : (i < length c')%nat) by (apply nth_error_Some; congruence).
+    specialize (wn_chain0 i m b). rewrite nth_error_app1 in wn_chain0 by exact L.
+    rewrite firstn_app_le in wn_chain0 by lia. auto. }
+  constructor; unfold blocks_of; cbn [chain pool]; rewrite ?app_nil_r.
+  - exact CH.
+  - intros b [].
+  - intros a. eapply prefix_nodup; [apply PL | apply wn_nodup0].
+  - intros c Hc.
+    assert (P1 : prefix (recvs_of c (concat c')) (inbox_at c c' ++ inbox_at c [last])).
+    { rewrite <- inbox_at_app. eapply prefix_trans; [apply PL | apply wn_fifo0; exact Hc]. }
+    eapply prefix_cut; [exact P1 | | rewrite <- inbox_at_app; apply to_hashes_nodup; exact wn_sends0].
+    intros h Hh. destruct (recvs_in_chain _ _ _ Hh) as [i [m [b [Hn [Hb [K A]]]]]].
+    specialize (CH i m b Hn Hb). unfold recv_ok in CH. rewrite K in CH. destruct CH as [f F]. rewrite A in F.
+    apply find_csend_to in F. unfold inbox_at. rewrite <- (firstn_skipn i c'), conf_sends_app, to_hashes_app.
+    apply in_or_app. left. exact F.
+  - rewrite conf_sends_app, map_app in wn_sends0. eapply NoDup_app_l; exact wn_sends0.
+Qed.
+
+Lemma WFN_drop_pool n : WFN n -> WFN (mkNode (chain n) []).
+Proof.
+  intros W. pose proof W as W0. destruct W.
+  assert (PL : forall a, prefix (recvs_of a (concat (chain n))) (recvs_of a (blocks_of n))).
+  { intros a. unfold blocks_of. rewrite recvs_of_app. apply prefix_app_r. }
+  constructor; unfold blocks_of; cbn [chain pool]; rewrite ?app_nil_r; auto.
+  - intros b [].
+  - intros a. eapply prefix_nodup; [apply PL | apply wn_nodup0].
+  - intros c Hc. eapply prefix_trans; [apply PL | apply wn_fifo0; exact Hc].
+Qed.
+
+Lemma exists_last' {A} (l : list A) : l <> [] -> exists l' x, l = l' ++ [x].
+Proof. intros H. destruct (exists_last H) as [l' [x E]]. eauto. Qed.
+
+(* ================================================================ every event preserves the invariant *)
+Theorem step_node_wf n e n' c : WFN n -> step_node true n e = (n', c) -> WFN n'.
+Proof.
+  intros W H. destruct e; cbn [step_node] in H.
+  - set (n1 := mkNode (chain n) (keep_first (Z.to_nat keep) (b_addr b) (pool n))) in *.
+    assert (W1 : WFN n1) by (apply WFN_keep_first; exact W).
+    destruct (check_blk true n1 b =? 0) eqn:C; cbn [andb] in H.
+    + destruct commit; inversion H; subst; [|exact W].
+      apply Z.eqb_eq in C. apply (WFN_add n1 b W1 C).
+    + inversion H; subst; exact W.
+  - destruct (pick sel (pool n)) as [mom|] eqn:P; [|inversion H; subst; exact W].
+    destruct (momentum_ok n mom _) eqn:OK; inversion H; subst; [|exact W].
+    eapply WFN_momentum; eauto.
+  - destruct (chain n) as [|m0 [|m1 r]] eqn:E; try (inversion H; subst; exact W).
+    destruct (exists_last' (m0 :: m1 :: r)) as [c' [x Ex]]; [discriminate|].
+    assert (RL : removelast (m0 :: m1 :: r) = c') by (rewrite Ex; apply removelast_snoc).
+    rewrite RL in H. injection H as <- <-. eapply WFN_truncate; [exact W | rewrite E; exact Ex].
+  - inversion H; subst. apply WFN_drop_pool; exact W.
+Qed.
+
+Theorem run_node_wf es : forall n, WFN n -> WFN (run_node true n es).
+Proof.
+  induction es as [|e r IH]; intros n W; cbn [run_node]; [exact W|].
+  apply IH. destruct (step_node true n e) as [n' c] eqn:E. cbn [fst]. eapply step_node_wf; eauto.
+Qed.
+
+(* ================================================================ the statements *)
+Lemma all_recv_ok n b : WFN n -> In b (blocks_of n) -> recv_ok (chain n) b.
+Proof.
+  intros W H. unfold blocks_of in H. apply in_app_iff in H. destruct H as [H|H]; [|apply (wn_pool _ W); exact H].
+  apply in_concat in H. destruct H as [m [Hm Hb]]. apply In_nth_error in Hm. destruct Hm as [i Hi].
+  eapply recv_ok_firstn. eapply (wn_chain _ W); eauto.
+Qed.
+
+(* only the account the send is addressed to receives it, and the send is confirmed *)
+Theorem only_addressee n b h :
+  WFN n -> In b (blocks_of n) -> b_kind b = BRecv h ->
+  exists from, find_csend h (conf_sends (chain n)) = Some (from, b_addr b).
+Proof. intros W H K. pose proof (all_recv_ok _ _ W H) as R. unfold recv_ok in R. rewrite K in R. exact R. Qed.
+
+Lemma receivers_in h l b : In b (receivers h l) -> In b l /\ b_kind b = BRecv h.
+Proof.
+  induction l as [|x r IH]; cbn [receivers]; [intros []|].
+  destruct (b_kind x) as [t|fh] eqn:K.
+  - intros H; destruct (IH H) as [A B]; split; [right; exact A | exact B].
+  - destruct (fh =? h) eqn:E.
+    + intros [<-|H]; [apply Z.eqb_eq in E; subst; split; [left; reflexivity | exact K] |
+                       destruct (IH H) as [A B]; split; [right; exact A | exact B]].
+    + intros H; destruct (IH H) as [A B]; split; [right; exact A | exact B].
+Qed.
+Lemma receivers_count h a l :
+  (forall b, In b l -> b_kind b = BRecv h -> b_addr b = a) ->
+  length (receivers h l) = count_occ Z.eq_dec (recvs_of a l) h.
+Proof.
+  induction l as [|x r IH]; cbn [receivers recvs_of]; [reflexivity|]. intros H.
+  assert (IH' := IH (fun b Hb => H b (or_intror Hb))).
+  destruct (b_kind x) as [t|fh] eqn:K; [exact IH'|].
+  destruct (fh =? h) eqn:E.
+  - apply Z.eqb_eq in E; subst fh. rewrite (H x (or_introl eq_refl) K), Z.eqb_refl.
+    cbn [length count_occ]. destruct (Z.eq_dec h h); [|congruence]. f_equal. exact IH'.
+  - apply Z.eqb_neq in E. destruct (b_addr x =? a); [|exact IH'].
+    cbn [count_occ]. destruct (Z.eq_dec fh h); [congruence | exact IH'].
+Qed.
+
+(* every send is received at most once over the whole chain + pool *)
+Theorem at_most_once n h : WFN n -> (length (receivers h (blocks_of n)) <= 1)%nat.
+Proof.
+  intros W. destruct (find_csend h (conf_sends (chain n))) as [[from to]|] eqn:F.
+  - rewrite (receivers_count h to).
+    + pose proof (wn_nodup _ W to) as ND. rewrite (NoDup_count_occ Z.eq_dec) in ND. apply ND.
+    + intros b Hb K. destruct (only_addressee _ _ _ W Hb K) as [f G]. congruence.
+  - destruct (receivers h (blocks_of n)) as [|b r] eqn:R; [cbn; lia|]. exfalso.
+    assert (Hb : In b (receivers h (blocks_of n))) by (rewrite R; left; reflexivity).
+    apply receivers_in in Hb. destruct Hb as [Hb K]. destruct (only_addressee _ _ _ W Hb K) as [f G]. congruence.
+Qed.
+
+(* contract inboxes are strict FIFO: the sequence of received sends is a duplicate-free prefix of the confirmation order *)
+Theorem fifo n c :
+  WFN n -> is_emb c = true ->
+  prefix (recvs_of c (blocks_of n)) (inbox_at c (chain n)) /\ NoDup (recvs_of c (blocks_of n)).
+Proof. intros W Hc. split; [apply (wn_fifo _ W); exact Hc | apply (wn_nodup _ W)]. Qed.
+
+(* ================================================================ before the enforcement height *)
+Definition pre_enf_events : list event :=
+  [ EBlock 0 true (mkBlk 1000 100 (BSend 101) 1 []); EMomentum [1000];
+    EBlock 0 true (mkBlk 1001 102 (BRecv 1000) 2 []); EBlock 0 true (mkBlk 1002 101 (BRecv 1000) 2 []) ].
+Theorem pre_enforcement_two_receivers :
+  length (receivers 1000 (blocks_of (run_node false genesis_node pre_enf_events))) = 2%nat.
+Proof. vm_compute. reflexivity. Qed.
